@@ -25,6 +25,7 @@ func init() {
 }
 
 type semCase struct {
+	unsettled bool // a settle timed out: the counters do not behave; stop waiting for them in this case
 	s       *semaphore.Semaphore
 	n       int
 	done    map[int]chan struct{}
@@ -33,7 +34,16 @@ type semCase struct {
 }
 
 func (c *semCase) settle(want int) {
-	deadline := time.Now().Add(2 * time.Second)
+	if c.unsettled {
+		time.Sleep(2 * time.Millisecond)
+		return
+	}
+	deadline := time.Now().Add(300 * time.Millisecond)
+	defer func() {
+		if !time.Now().Before(deadline) {
+			c.unsettled = true
+		}
+	}()
 	for time.Now().Before(deadline) {
 		if c.s.Len()+c.s.Waiting() == want {
 			l := c.s.Len()
@@ -76,7 +86,8 @@ func execSem(ops []string) []string {
 		if c.s == nil {
 			return
 		}
-		for len(c.holding)+len(c.waiting) > 0 {
+		stop := time.Now().Add(2 * time.Second)
+		for len(c.holding)+len(c.waiting) > 0 && time.Now().Before(stop) {
 			for id := range c.holding {
 				c.s.Signal()
 				delete(c.holding, id)
@@ -121,11 +132,12 @@ func execSem(ops []string) []string {
 				acq = true
 			case <-time.After(3 * time.Millisecond):
 			}
-			if !acq && len(c.holding) < c.n { // it should have acquired: give it time
+			if !acq && len(c.holding) < c.n && !c.unsettled { // it should have acquired: give it time
 				select {
 				case <-ch:
 					acq = true
-				case <-time.After(time.Second):
+				case <-time.After(300 * time.Millisecond):
+					c.unsettled = true
 				}
 			}
 			if acq {
@@ -145,7 +157,10 @@ func execSem(ops []string) []string {
 			c.settle(len(c.holding) + len(c.waiting))
 			var woke []int
 			if hadWaiters {
-				deadline := time.Now().Add(time.Second)
+				deadline := time.Now().Add(300 * time.Millisecond)
+				if c.unsettled {
+					deadline = time.Now().Add(3 * time.Millisecond)
+				}
 				for len(woke) == 0 && time.Now().Before(deadline) {
 					woke = c.collect()
 					if len(woke) == 0 {
